@@ -112,6 +112,8 @@ func (w *Wallet) getActiveKeyset(mintURL string) (*crypto.WalletKeyset, error) {
 	if activeChanged {
 		// inactivate previous active
 		activeKeyset.Active = false
+		// the keyset in memory has the counter from when it was loaded
+		activeKeyset.Counter = w.db.GetKeysetCounter(activeKeyset.Id)
 		mint.inactiveKeysets[activeKeyset.Id] = activeKeyset
 		if err := w.db.SaveKeyset(&activeKeyset); err != nil {
 			return nil, err
@@ -156,6 +158,8 @@ func (w *Wallet) getActiveKeyset(mintURL string) (*crypto.WalletKeyset, error) {
 		// check if input_fee_ppk changed for current active
 		if activeInputFeePpk != activeKeyset.InputFeePpk {
 			activeKeyset.InputFeePpk = activeInputFeePpk
+			// the keyset in memory has the counter from when it was loaded
+			activeKeyset.Counter = w.db.GetKeysetCounter(activeKeyset.Id)
 			if err := w.db.SaveKeyset(&activeKeyset); err != nil {
 				return nil, err
 			}
